@@ -6,15 +6,15 @@ side conditions, the converse of `WF.of_wf`, and the packaged semantic statement
 namespace KV.Transform
 open KV
 
-theorem implOKB_spec (m : NNet) (sh : Shape) (dn : Nat) (hs : implShape m = some sh) (hd : sh.des = some dn)
+theorem implOKB_spec (m : NNet) (mw : WF m) (sh : Shape) (dn : Nat) (hs : implShape m = some sh) (hd : sh.des = some dn)
     (hok : implOKB m = true) :
     dn ∉ m.net.io ∧ m.net.io.Nodup ∧ (∀ p ∈ m.net.io, isSeqKind (m.net.node p).kind = false) ∧
     (∀ p ∈ m.net.io, 0 < (m.net.node p).ins.length → 0 < (m.net.node p).outs.length → (m.net.node p).isFork = true) := by
   unfold implOKB at hok
   rw [hs] at hok
   simp only [hd, Bool.and_eq_true, decide_eq_true_eq, List.all_eq_true, Bool.not_eq_true', Bool.or_eq_true] at hok
-  obtain ⟨⟨h1, h2⟩, h3⟩ := hok
-  refine ⟨by simpa using h1, h2, fun p hp => (h3 p hp).1, fun p hp hi ho => ?_⟩
+  obtain ⟨⟨_, h2⟩, h3⟩ := hok
+  refine ⟨implShape_des_notPort m mw sh dn hs hd (fun p hp => (h3 p hp).1), h2, fun p hp => (h3 p hp).1, fun p hp hi ho => ?_⟩
   rcases (h3 p hp).2 with h4 | h4
   · simp [hi, ho] at h4
   · exact h4
@@ -165,7 +165,7 @@ theorem substituteCore_cert_keepsAll (h m : NNet) (c : Nat) (hw : WF h) (mw : WF
         | none => true
         | some root => keptRoot h5 (map.toList.filterMap id) root) = true := by
   obtain ⟨sh, dn, h5, map, dang, hs, hd, hcore, hni, hk⟩ := keepsAllB_spec h c m hr
-  obtain ⟨k1, k2, k3, k4⟩ := implOKB_spec m sh dn hs hd hok
+  obtain ⟨k1, k2, k3, k4⟩ := implOKB_spec m mw sh dn hs hd hok
   exact ⟨sh, dn, h5, map, dang, hcore, substituteCore_cert h c m sh dn hw mw hc (by simpa using hio) hcf hs hd k1 k2 k3 k4 hni
     h5 map dang hcore, hk⟩
 
